@@ -69,6 +69,7 @@ def stop_sections(report=MAIN_REPORT):
     old_submission = report[TOOL_NAME]['substitutions'].pop()
     report.stop_group(report[TOOL_NAME]['section_group'])
     report.submission.replace_main(old_submission.code, old_submission.filename)
+    report.submission.clear_line_offsets()
     report[TOOL_NAME]['section_group'] = None
 
 def stop_any_sections(report=MAIN_REPORT):
